@@ -163,6 +163,170 @@ def reported(M, paths, sc, by_text, what):
     return message_names(errs, by_text), p
 
 
+def filing_contract(cfg, g):
+    """a leaf closure of check_file that files diagnostics: which parameter is the object (key), which one goes under
+    'errors' and which under 'warnings' -- derived from its own abstract paths, None when it is not such a function"""
+    from nixsa.callgraph import _OpaqueEnv
+    try:
+        paths = explore(cfg, g, None, None, 2000, closure_env=_OpaqueEnv())
+    except (Budget, AnalysisError):
+        return None
+    roles = {}
+    for p in paths:
+        for e in p.events:
+            if e.kind == "local" and e.op == "setitem" and e.recv is not None and e.key is not None and e.args:
+                r = e.recv.t
+                which = [x[1] for x in subterms(r) if x and x[0] == "const" and x[1] in ("errors", "warnings")]
+                if len(which) != 1 or e.key.t[0] != "param" or e.args[0].t[0] != "param":
+                    return None
+                roles.setdefault(which[0], set()).add((e.key.t[1], e.args[0].t[1]))
+    if set(roles) != {"errors", "warnings"} or any(len(v) != 1 for v in roles.values()):
+        return None
+    (ko, pe), = roles["errors"]
+    (kw_, pw), = roles["warnings"]
+    if ko != kw_ or pe == pw:
+        return None
+    # a non-empty list is always filed
+    for p in paths:
+        dec = {a[1][1]: v for a, v in p.decisions if a[0] == "truthy" and a[1][0] == "param"}
+        stored = {x[1] for e in p.events if e.kind == "local" and e.op == "setitem" for x in subterms(e.recv.t)
+                  if x and x[0] == "const" and x[1] in ("errors", "warnings")}
+        if dec.get(pe, True) and "errors" not in stored and p.normal:
+            return None
+        if dec.get(pw, True) and "warnings" not in stored and p.normal:
+            return None
+    names = [a.arg for a in g.node.args.args]
+    return {"obj": names.index(ko), "errors": names.index(pe), "warnings": names.index(pw)}
+
+
+def traversal_rule(M, rep, R1, vm):
+    """check_file checks the elements of every container kind with the kind's own check function, walks source and
+    section trees below the first level, and files each result under the checked object with errors and warnings in their
+    places. Decided on the abstract paths of check_file; the check_* functions and the filing closure are opaque calls."""
+    cf = vm.funcs.get("check_file")
+    if cf is None:
+        rep.bad(R1, "check_file", "required mechanism not found")
+        return
+    c = Ctx(M, coarse=False)
+    c.cfg.compose = False
+    for n, f in vm.funcs.items():
+        if n.startswith("check_") and n != "check_file":
+            c.cfg.opaque[f.qual] = ("py", "tuple")
+    contracts = {}
+    for n, g in getattr(cf, "nested", {}).items():
+        if any(isinstance(x, (ast.For, ast.While)) for x in ast.walk(g.node)):
+            continue
+        k = filing_contract(c.cfg, g)
+        if k is not None:
+            contracts[g.qual] = k
+            c.cfg.opaque[g.qual] = ("const", None)
+    def force(atom, domain):
+        # the rule is about the traversal: it looks at the one family of paths on which every container holds exactly one
+        # element and nothing raises; conditions on the results themselves (is the error list empty?) stay free
+        k = atom[0]
+        if k == "iter":
+            return atom[2] == 0
+        if k in ("lraise", "oraise", "xraise", "rraise"):
+            return False
+        if k == "enumvalid":
+            return True
+        if any(x and x[0] == "call" and isinstance(x[1], str) and x[1].startswith(VAL + "check_") for x in subterms(atom)):
+            return None
+        return list(domain)[0]
+    c.cfg.force = force
+    try:
+        paths = explore(c.cfg, cf, None, None, 20000)
+    except Budget:
+        raise AnalysisError("C14.R1: check_file has too many abstract paths (is the filing of results written out in every loop?)")
+    finally:
+        c.cfg.force = None
+    KCLS = {"blocks": "Block", "groups": "Group", "data_arrays": "DataArray", "tags": "Tag", "multi_tags": "MultiTag",
+            "sources": "Source", "sections": "Section"}
+
+    def cls_of(v):
+        if v.t and v.t[0] == "inst":
+            return v.t[1]
+        for t in v.ty or ():
+            if isinstance(t, tuple) and t[0] == "obj":
+                return t[1]
+        # an abstract element of a container accessor: the accessor's name says what it holds
+        if v.t and v.t[0] == "elem" and v.t[1] and v.t[1][0] == "attr":
+            for kind, cn in KCLS.items():
+                if v.t[1][2] in (kind, "_" + kind):
+                    return cn
+        return None
+    checked = {}        # class of the checked object -> {(check function, argument term)}
+    filed = set()       # argument terms filed correctly
+    misfiled = set()
+    walked = set()      # classes whose child container is handed to a recursive call after an element was checked
+    for p in paths:
+        if not p.normal:
+            continue
+        calls = {}
+        for e in p.events:
+            if e.kind == "ocall" and e.op.startswith(VAL + "check_") and "<locals>" not in e.op and e.args:
+                fn = e.op.split(":")[-1]
+                calls[e.args[0].t] = fn
+                checked.setdefault(cls_of(e.args[0]), set()).add((fn, e.args[0].t))
+            if e.kind == "rcall" and e.args:
+                for cn in ("Source", "Section"):
+                    site = e.args[0].t[2] if e.args[0].t and e.args[0].t[0] == "inst" and len(e.args[0].t) > 2 else ""
+                    mod = M.classes[cn].module.relpath.split("/")[-1] if cn in M.classes else "?"
+                    kfn = [KINDS[k_] for k_, c2 in KCLS.items() if c2 == cn][0]
+                    if cls_of(e.args[0]) == cn + "Container" and str(site).startswith(mod) and kfn in calls.values():
+                        walked.add(cn)
+        filings = []
+        for e in p.events:
+            if e.kind == "ocall" and e.op in contracts and len(e.args) >= 3:
+                k = contracts[e.op]
+                filings.append((e.args[k["obj"]].t, e.args[k["errors"]].t, e.args[k["warnings"]].t))
+        direct = {}
+        for e in p.events:
+            if e.kind == "local" and e.op == "setitem" and e.recv is not None and e.key is not None and e.args:
+                which = [x[1] for x in subterms(e.recv.t) if x and x[0] == "const" and x[1] in ("errors", "warnings")]
+                if len(which) == 1:
+                    direct.setdefault(e.key.t, {})[which[0]] = e.args[0].t
+        for k, d in direct.items():
+            filings.append((k, d.get("errors"), d.get("warnings")))
+        for o, er, wa in filings:
+            fn = calls.get(o)
+            if fn is None:
+                continue
+            oke = er is not None and er[0] == "unpack" and er[2] == 0 and er[1][0] == "call" and er[1][1].endswith(":" + fn) and o in er[1][2]
+            okw = wa is not None and wa[0] == "unpack" and wa[2] == 1 and wa[1][0] == "call" and wa[1][1].endswith(":" + fn) and o in wa[1][2]
+            if oke and okw:
+                filed.add(o)
+            else:
+                misfiled.add(o)
+    for kind, fn in KINDS.items():
+        got = checked.get(KCLS[kind], set())
+        right = {a for g, a in got if g == fn}
+        wrong = sorted(g for g, a in got if g != fn)
+        rep.check(R1, kind, bool(right) and not wrong and right <= filed and not (right & misfiled),
+                  "check_file: %s" % ("the %s of the file are not visited" % kind if not got else
+                                      ("%s are checked with %s instead of %s" % (kind, wrong[0], fn) if wrong else
+                                       "the results for an element of %s are not stored under that element with errors and warnings in "
+                                       "their places" % kind)), site="%s:%d" % (cf.file, cf.node.lineno))
+    for kind, cn in (("sources", "Source"), ("sections", "Section")):
+        rep.check(R1, "tree of " + kind, cn in walked,
+                  "the %s tree is not walked below its first level: the child %s of a checked %s are not handed to the recursive walk" % (
+                      kind, kind, cn), site=cf.file)
+    rep.check(R1, "filing", bool(contracts) or bool(filed), "check_file does not file errors under 'errors' and warnings under "
+              "'warnings' for the checked object", site=cf.file)
+    return {fn for got in checked.values() for fn, _ in got}
+
+
+def contained(a, whole):
+    """is the collected term part of the returned one? A list built by a helper and spliced into the returned list is
+    there element by element"""
+    subs = set(subterms(whole))
+    if a in subs:
+        return True
+    if a and a[0] in ("list", "tuple") and a[1]:
+        return all(x in subs or (x and x[0] == "star" and (x[1] in subs or contained(x[1], whole))) for x in a[1])
+    return False
+
+
 def run(M, rep, tier, only=None):
     ctx = Ctx(M, coarse=False)
     ctx.cfg.compose = False
@@ -188,61 +352,12 @@ def run(M, rep, tier, only=None):
         rep.bad(R1, "nixio.validator", "required mechanism not found")
         return
 
-    # ---------------------------------------------------------------- R1 (AST def-use in check_file)
-    cf = vm.funcs.get("check_file")
-    if cf is None:
-        rep.bad(R1, "check_file", "required mechanism not found")
-    else:
-        seen = {}
-        fns = [cf] + list(getattr(cf, "nested", {}).values())
-        for f in fns:
-            for n in ast.walk(f.node):
-                if not isinstance(n, ast.For) or not isinstance(n.target, ast.Name):
-                    continue
-                var = n.target.id
-                it = ast.unparse(n.iter)
-                kind = it.split(".")[-1] if "." in it else it
-                checks = [c for c in ast.walk(n) if isinstance(c, ast.Assign) and isinstance(c.value, ast.Call)
-                          and isinstance(c.value.func, ast.Name) and c.value.func.id.startswith("check_")
-                          and c.value.args and isinstance(c.value.args[0], ast.Name) and c.value.args[0].id == var]
-                direct = [c for c in checks if any(c is b or c in ast.walk(b) for b in n.body) and not any(
-                    isinstance(b, ast.For) and c in ast.walk(b) for b in n.body)]
-                for c in direct:
-                    fn = c.value.func.id
-                    tg = c.targets[0]
-                    names = [x.id for x in tg.elts] if isinstance(tg, ast.Tuple) else []
-                    ups = [u for u in ast.walk(n) if isinstance(u, ast.Call) and isinstance(u.func, ast.Name) and u.func.id == "update_results"
-                           and u.args and isinstance(u.args[0], ast.Name) and u.args[0].id == var]
-                    ok = bool(ups) and len(names) == 2 and all(
-                        len(u.args) == 3 and isinstance(u.args[1], ast.Name) and isinstance(u.args[2], ast.Name) and
-                        [u.args[1].id, u.args[2].id] == names for u in ups)
-                    seen[kind] = (fn, ok, n.lineno)
-        for kind, fn in KINDS.items():
-            got = seen.get(kind)
-            rep.check(R1, kind, got is not None and got[0] == fn and got[1],
-                      "check_file: %s" % ("the %s of the file are not visited" % kind if got is None else
-                                          ("%s are checked with %s instead of %s" % (kind, got[0], fn) if got[0] != fn else
-                                           "the results for an element of %s are not stored under that element with errors and warnings in "
-                                           "their places" % kind)), site="%s:%d" % (cf.file, got[2] if got else cf.node.lineno))
-        # update_results keeps errors under 'errors' and warnings under 'warnings'
-        ur = getattr(cf, "nested", {}).get("update_results")
-        if ur is not None:
-            txt = ast.unparse(ur.node)
-            okr = "results['errors'][obj] = errors" in txt and "results['warnings'][obj] = warnings" in txt
-            rep.check(R1, "update_results", okr, "update_results does not file errors under 'errors' and warnings under 'warnings' "
-                      "for the given object", site="%s:%d" % (cf.file, ur.node.lineno))
-        # recursion of the two tree walks and their roots
-        for tname, attr, root in (("traverse_sources", "sources", "block.sources"), ("traverse_sections", "sections", "nixfile.sections")):
-            tf = getattr(cf, "nested", {}).get(tname)
-            rec = tf is not None and any(isinstance(c, ast.Call) and isinstance(c.func, ast.Name) and c.func.id == tname and c.args
-                                         and ast.unparse(c.args[0]).endswith("." + attr) for c in ast.walk(tf.node))
-            started = any(isinstance(c, ast.Call) and isinstance(c.func, ast.Name) and c.func.id == tname and c.args
-                          and ast.unparse(c.args[0]) == root for c in ast.walk(cf.node))
-            rep.check(R1, tname, rec and started, "the %s tree is not walked recursively from %s" % (attr, root), site=cf.file)
+    # ---------------------------------------------------------------- R1 (abstract paths of check_file)
+    called = traversal_rule(M, rep, R1, vm) or set()
 
     # ---------------------------------------------------------------- R3
     reach = set()
-    todo = ["check_file"]
+    todo = ["check_file"] + sorted(called)      # the check functions check_file was seen to call (R1), however they are passed
     while todo:
         q = todo.pop()
         if q in reach or q not in vm.funcs:
@@ -443,8 +558,8 @@ def run(M, rep, tier, only=None):
             for e in p.events:
                 if e.kind == "local" and e.op in ("list.append", "list.extend") and e.args:
                     a = e.args[0].t
-                    in_e = any(x == a for x in subterms(errs))
-                    in_w = any(x == a for x in subterms(warns))
+                    in_e = contained(a, errs)
+                    in_w = contained(a, warns)
                     if not (in_e or in_w):
                         bad = (p, "a diagnostic that was collected (%s) is not part of what is returned" % show(a)[:80])
                     names = message_names(a, by_text)
@@ -495,3 +610,8 @@ def run(M, rep, tier, only=None):
             second = any("refs_units" in show(p.terminal[1].t) and ("all(" in show(p.terminal[1].t) or "any(" in show(p.terminal[1].t)) for p in paths)
         rep.check(R5, "tag_units_match_refs_units", second, "after a compatible first reference no further reference is looked at: an "
                   "unconvertible unit in a later reference is not reported", site="%s:%d" % (hf.file, hf.node.lineno))
+
+    # ---- R6 (shared with C09.R1/R3): the unit verdicts of the validator are those of the unit functions
+    from .common import run_shared
+    from . import c09
+    run_shared(c09, M, rep, tier, {"C09.R3": "C14.R6", "C09.R1": "C14.R7"})
